@@ -485,4 +485,590 @@ theorem replay_frame_cases (t : Tree) (hc : chainOk true t.root = true) (j : Nat
     rw [callsOf_events]
     exact frameAt_call t.root none 0 none 1 j f hf
 
+
+/-! ### clause 5: every row shows a call that raised, or a completed step of a chain that raised -/
+
+/-- the error a row of the loop shows is the CUR_ERROR of its frame -/
+theorem unpackLoop_error (fs : Array Frame) : ∀ (fuel cur : Nat) (acc : List Row),
+    (∀ r, r ∈ acc → r.error = (fs[r.frame]?).bind (·.curError)) →
+    ∀ r, r ∈ unpackLoop fs fuel cur acc → r.error = (fs[r.frame]?).bind (·.curError) := by
+  intro fuel
+  induction fuel with
+  | zero => intro cur acc hacc r hr; exact hacc r (by simpa [unpackLoop] using hr)
+  | succ fuel ih =>
+    intro cur acc hacc r hr
+    unfold unpackLoop at hr
+    cases hf : fs[cur]? with
+    | none => rw [hf] at hr; exact hacc r hr
+    | some f =>
+      rw [hf] at hr
+      simp only at hr
+      cases hlc : f.lastChild with
+      | none =>
+        rw [hlc] at hr
+        simp only [List.mem_append, List.mem_singleton] at hr
+        rcases hr with hr | hr
+        · exact hacc r hr
+        · subst hr; simp [hf]
+      | some child =>
+        rw [hlc] at hr
+        simp only at hr
+        generalize (if f.childErrors == [child] then [] else f.childErrors) = br at hr
+        have hacc' : ∀ r, r ∈ acc ++ [⟨cur, f.curError, br⟩] → r.error = (fs[r.frame]?).bind (·.curError) := by
+          intro r hr
+          simp only [List.mem_append, List.mem_singleton] at hr
+          rcases hr with hr | hr
+          · exact hacc r hr
+          · subst hr; simp [hf]
+        cases hc : br.contains child with
+        | true => rw [hc] at hr; exact hacc' r hr
+        | false =>
+          rw [hc] at hr
+          simp only [Bool.false_eq_true, if_false] at hr
+          split at hr
+          · exact hacc' r hr
+          · exact ih child _ hacc' r hr
+
+/-- the chained enters of a tree: (frame of the previous step, frame of the chained step) -/
+def chainK (prev : Option Nat) (n : Nat) : Kids → List (Nat × Nat)
+  | .nil => []
+  | .cons ch _ ks _ rest =>
+    (match ch, prev with
+     | true, some q => [(q, n)]
+     | _, _ => []) ++ chainK none (n + 1) ks ++ chainK (some n) (n + 1 + ks.size) rest
+
+theorem chainedEnters_go_append : ∀ (evs : List Ev) (next : Nat) (acc : List (Nat × Nat)),
+    chainedEnters.go evs next acc = acc ++ chainedEnters.go evs next []
+  | [], _, acc => by simp [chainedEnters.go]
+  | .enter p fl _ _ _ _ _ :: rest, next, acc => by
+    simp only [chainedEnters.go]
+    rw [chainedEnters_go_append rest (next + 1) (if fl = true then acc ++ [(p, next)] else acc),
+      chainedEnters_go_append rest (next + 1) (if fl = true then [] ++ [(p, next)] else [])]
+    cases fl <;> simp
+  | .exitOk :: rest, next, acc => by
+    simp only [chainedEnters.go]
+    exact chainedEnters_go_append rest next acc
+  | .exitErr _ :: rest, next, acc => by
+    simp only [chainedEnters.go]
+    exact chainedEnters_go_append rest next acc
+
+theorem chainedEnters_go_evKids : ∀ (K : Kids) (p : Nat) (prev : Option Nat) (n : Nat) (tail : List Ev),
+    chainedEnters.go (evKids p prev n K ++ tail) n [] =
+      chainK prev n K ++ chainedEnters.go tail (n + K.size) [] := by
+  intro K
+  induction K with
+  | nil => intro p prev n tail; simp [evKids, chainK, Kids.size]
+  | cons ch i ks res rest ihks ihrest =>
+    intro p prev n tail
+    simp only [evKids, List.cons_append, List.append_assoc, chainedEnters.go]
+    rw [chainedEnters_go_append, ihks n none (n + 1)]
+    have hnext : n + 1 + ks.size + rest.size = n + (Kids.cons ch i ks res rest).size := by
+      simp [Kids.size]; omega
+    have hexit : ∀ tl, chainedEnters.go (exitEv res :: tl) (n + 1 + ks.size) [] = chainedEnters.go tl (n + 1 + ks.size) [] := by
+      intro tl; cases res <;> simp [exitEv, chainedEnters.go]
+    rw [hexit, ihrest p (some n) (n + 1 + ks.size), hnext]
+    simp only [chainK, List.append_assoc]
+    congr 1
+    cases ch <;> cases prev <;> simp
+
+theorem chainedEnters_events (t : Tree) : chainedEnters (events t) = chainK none 1 t.root := by
+  have := chainedEnters_go_evKids t.root 0 none 1 []
+  simpa [chainedEnters, events, chainedEnters.go] using this
+
+
+theorem callsK_length : ∀ (K : Kids) (o : Option Nat) (n : Nat), (callsK o n K).length = K.size := by
+  intro K
+  induction K with
+  | nil => intro o n; rfl
+  | cons ch i ks res rest ihks ihrest =>
+    intro o n
+    simp only [callsK, List.length_cons, List.length_append, ihks, ihrest, Kids.size]
+    omega
+
+/-- a frame with a CUR_ERROR is a call that raised, or a completed step of a chain a later step of
+    which raised -/
+theorem roc_of_curError (calls : List CallInfo) (chn : List (Nat × Nat)) :
+    ∀ (K : Kids) (o : Option Nat) (p : Nat) (prev : Option Nat) (n j : Nat) (f : Frame) (fuel : Nat),
+    frameAt p prev n K j = some f → f.curError ≠ none → n ≤ j → n + K.size ≤ j + fuel →
+    (∀ c, c ∈ callsK o n K → c ∈ calls) → (∀ pd, pd ∈ chainK prev n K → pd ∈ chn) →
+    raisedOrChain calls chn fuel j = true := by
+  intro K
+  induction K with
+  | nil => intro o p prev n j f fuel h; simp [frameAt] at h
+  | cons ch i ks res rest ihks ihrest =>
+    intro o p prev n j f fuel h hcur hnj hfuel hcalls hchn
+    simp only [Kids.size] at hfuel
+    have hcalls_ks : ∀ c, c ∈ callsK (some n) (n + 1) ks → c ∈ calls :=
+      fun c hc => hcalls c (by simp only [callsK]; exact List.mem_cons_of_mem _ (List.mem_append_left _ hc))
+    have hcalls_rest : ∀ c, c ∈ callsK o (n + 1 + ks.size) rest → c ∈ calls :=
+      fun c hc => hcalls c (by simp only [callsK]; exact List.mem_cons_of_mem _ (List.mem_append_right _ hc))
+    have hchn_ks : ∀ pd, pd ∈ chainK none (n + 1) ks → pd ∈ chn :=
+      fun pd hpd => hchn pd (by simp only [chainK]; exact List.mem_append_left _ (List.mem_append_right _ hpd))
+    have hchn_rest : ∀ pd, pd ∈ chainK (some n) (n + 1 + ks.size) rest → pd ∈ chn :=
+      fun pd hpd => hchn pd (by simp only [chainK]; exact List.mem_append_right _ hpd)
+    rw [frameAt] at h
+    split at h
+    · rename_i hj
+      subst hj
+      obtain ⟨fuel', rfl⟩ : ∃ k, fuel = k + 1 := ⟨fuel - 1, by omega⟩
+      simp only [Option.some.injEq] at h
+      simp only [raisedOrChain, Bool.or_eq_true, List.any_eq_true, Bool.and_eq_true, beq_iff_eq]
+      split at h
+      · -- handed on by chain_child: the chain's later step raised
+        rename_i hrs
+        right
+        subst h
+        simp only at hcur
+        cases rest with
+        | nil => simp [Kids.startsChained] at hrs
+        | cons ch2 i2 ks2 res2 rest2 =>
+          simp only [Kids.startsChained] at hrs
+          subst hrs
+          refine ⟨(j, j + 1 + ks.size), hchn_rest _ (by simp [chainK]), rfl, ?_⟩
+          have hfr := frameAt_isSome (.cons true i2 ks2 res2 rest2) p (some j) (j + 1 + ks.size) (j + 1 + ks.size)
+            (Nat.le_refl _) (by simp [Kids.size]; omega)
+          obtain ⟨f', hf'⟩ := Option.isSome_iff_exists.mp hfr
+          have hc' := frameAt_cur_first p (some j) (j + 1 + ks.size) (.cons true i2 ks2 res2 rest2)
+          rw [hf'] at hc'
+          simp only [Option.bind_some] at hc'
+          apply ihrest o p (some j) (j + 1 + ks.size) (j + 1 + ks.size) f' fuel' hf' (by rw [hc']; exact hcur)
+            (Nat.le_refl _) (by omega) hcalls_rest hchn_rest
+      · -- the call raised
+        left
+        subst h
+        simp only at hcur
+        refine ⟨_, hcalls _ (by simp only [callsK]; exact List.mem_cons_self), rfl, ?_⟩
+        cases res with
+        | none => exact absurd rfl hcur
+        | some x => rfl
+    · rename_i hj
+      split at h
+      · exact ihks (some n) n none (n + 1) j f fuel h hcur (by omega) (by omega) hcalls_ks hchn_ks
+      · exact ihrest o p (some n) (n + 1 + ks.size) j f fuel h hcur (by omega) (by omega) hcalls_rest hchn_rest
+
+theorem foldl_ok_true {β} (P Q : β → Bool) : ∀ (l : List β) (ok : Bool), ok = true → (∀ x, x ∈ l → P x = true ∨ Q x = true) →
+    l.foldl (fun ok x => if P x then true else ok && Q x) ok = true
+  | [], ok, h, _ => h
+  | x :: l, ok, h, hall => by
+    simp only [List.foldl_cons]
+    apply foldl_ok_true P Q l _ _ (fun y hy => hall y (List.mem_cons_of_mem _ hy))
+    rcases hall x (by simp) with h1 | h1
+    · simp [h1]
+    · subst h; simp [h1]
+
+
+/-! ### clause 4: the failed sub-evaluations of a call on the path -/
+
+/-- the direct sub-evaluations (frame, outcome) of a sibling list -/
+def topIdx (n : Nat) : Kids → List (Nat × Option Nat)
+  | .nil => []
+  | .cons _ _ ks res rest => (n, res) :: topIdx (n + 1 + ks.size) rest
+
+/-- **a sub-evaluation that raised is listed by the rows started at the head of its chain
+    segment**, and that head is among the failed heads (CHILD_ERRORS) of the enclosing call.
+    (`h0`: the head of the segment the first sibling continues, when it is chained after `prev`) -/
+theorem raised_kid_rows : ∀ (K : Kids) (h0 : Nat) (prev : Option Nat) (n : Nat) (first : Bool) (b x : Nat),
+    chainOk first K = true → (b, some x) ∈ topIdx n K →
+    ∃ hb, hb ∈ failedHeads h0 prev n K ∧
+      ((hb = h0 ∧ (K.startsChained && prev.isSome) = true ∧ segRes K = some x ∧ ∃ br, (⟨b, some x, br⟩ : Row) ∈ rowsAt n K n) ∨
+       (n ≤ hb ∧ segResAt n K hb = some x ∧ ∃ br, (⟨b, some x, br⟩ : Row) ∈ rowsAt n K hb)) := by
+  intro K
+  induction K with
+  | nil => intro h0 prev n first b x _ h; simp [topIdx] at h
+  | cons ch i ks res rest _ ihrest =>
+    intro h0 prev n first b x hck hb
+    simp only [chainOk, Bool.and_eq_true, Bool.or_eq_true, Bool.not_eq_true'] at hck
+    obtain ⟨⟨⟨_, _⟩, hres⟩, hckr⟩ := hck
+    simp only [topIdx, List.mem_cons, Prod.mk.injEq] at hb
+    rcases hb with ⟨rfl, hrx⟩ | hb
+    · -- the first sibling raised: the chain segment ends here
+      subst hrx
+      have hrs : rest.startsChained = false := by
+        rcases hres with h | h
+        · exact h
+        · simp at h
+      have hrow : ∃ br, (⟨b, some x, br⟩ : Row) ∈ rowsAt b (.cons ch i ks (some x) rest) b := by
+        rw [rowsAt]
+        simp only [if_true, hrs, Bool.false_eq_true, if_false]
+        cases lastHead none (b + 1) ks with
+        | none => exact ⟨[], by simp⟩
+        | some h => exact ⟨_, List.mem_cons_self⟩
+      refine ⟨if (ch && prev.isSome) = true then h0 else b, ?_, ?_⟩
+      · simp only [failedHeads, Option.isSome_some, if_true, List.mem_append, List.mem_singleton]
+        left; trivial
+      · by_cases hc : (ch && prev.isSome) = true
+        · left
+          rw [if_pos hc]
+          refine ⟨rfl, ?_, ?_, hrow⟩
+          · simpa [Kids.startsChained] using hc
+          · simp [segRes, hrs]
+        · right
+          rw [if_neg hc]
+          exact ⟨Nat.le_refl _, by simp [segResAt, segRes, hrs], hrow⟩
+    · -- a later sibling raised
+      obtain ⟨hb', hmem, hcase⟩ := ihrest (if (ch && prev.isSome) = true then h0 else n) (some n) (n + 1 + ks.size) false b x hckr hb
+      refine ⟨hb', ?_, ?_⟩
+      · simp only [failedHeads, List.mem_append]
+        right; exact hmem
+      · rcases hcase with ⟨hh, hcont, hseg, br, hrow⟩ | ⟨hge, hseg, br, hrow⟩
+        · -- it belongs to the segment this sibling belongs to
+          have hrs : rest.startsChained = true := by
+            simp only [Bool.and_eq_true, Option.isSome_some, and_true] at hcont; exact hcont
+          have hrow' : (⟨b, some x, br⟩ : Row) ∈ rowsAt n (.cons ch i ks res rest) n := by
+            rw [rowsAt]
+            simp only [if_true, hrs, hseg, Option.isNone_some, Bool.false_eq_true, if_false]
+            exact List.mem_cons_of_mem _ hrow
+          by_cases hc : (ch && prev.isSome) = true
+          · left
+            rw [if_pos hc] at hh
+            refine ⟨hh, by simpa [Kids.startsChained] using hc, by simp [segRes, hrs, hseg], br, hrow'⟩
+          · right
+            rw [if_neg hc] at hh
+            subst hh
+            exact ⟨Nat.le_refl _, by simp [segResAt, segRes, hrs, hseg], br, hrow'⟩
+        · right
+          refine ⟨by omega, ?_, br, ?_⟩
+          · simp only [segResAt, if_neg (by omega : ¬ hb' = n), if_neg (by omega : ¬ hb' < n + 1 + ks.size)]
+            exact hseg
+          · simp only [rowsAt, if_neg (by omega : ¬ hb' = n), if_neg (by omega : ¬ hb' < n + 1 + ks.size)]
+            exact hrow
+
+
+theorem callsK_outer : ∀ (K : Kids) (o : Option Nat) (n : Nat) (c : CallInfo), c ∈ callsK o n K →
+    c.outer = o ∨ ∃ m, n ≤ m ∧ m < n + K.size ∧ c.outer = some m := by
+  intro K
+  induction K with
+  | nil => intro o n c h; simp [callsK] at h
+  | cons ch i ks res rest ihks ihrest =>
+    intro o n c h
+    simp only [Kids.size]
+    simp only [callsK, List.mem_cons, List.mem_append] at h
+    rcases h with h | h | h
+    · subst h; exact Or.inl rfl
+    · rcases ihks _ _ c h with h' | ⟨m, h1, h2, h3⟩
+      · exact Or.inr ⟨n, by omega, by omega, h'⟩
+      · exact Or.inr ⟨m, by omega, by omega, h3⟩
+    · rcases ihrest _ _ c h with h' | ⟨m, h1, h2, h3⟩
+      · exact Or.inl h'
+      · exact Or.inr ⟨m, by omega, by omega, h3⟩
+
+/-- a call whose enclosing call is the enclosing call of the sibling list is one of the siblings -/
+theorem callsK_top : ∀ (K : Kids) (o : Option Nat) (n : Nat) (c : CallInfo), c ∈ callsK o n K → c.outer = o →
+    (∀ q, o = some q → q < n) → (c.idx, c.result) ∈ topIdx n K := by
+  intro K
+  induction K with
+  | nil => intro o n c h; simp [callsK] at h
+  | cons ch i ks res rest _ ihrest =>
+    intro o n c h ho hq
+    simp only [callsK, List.mem_cons, List.mem_append] at h
+    simp only [topIdx, List.mem_cons]
+    rcases h with h | h | h
+    · subst h; exact Or.inl rfl
+    · exfalso
+      rcases callsK_outer ks _ _ c h with h' | ⟨m, h1, _, h3⟩
+      · rw [h'] at ho; have := hq n ho.symm; omega
+      · rw [h3] at ho; have := hq m ho.symm; omega
+    · exact Or.inr (ihrest o _ c h ho (fun q hq' => by have := hq q hq'; omega))
+
+theorem callsK_split (ch : Bool) (i : Info) (ks : Kids) (res : Option Nat) (rest : Kids) (o : Option Nat) (n : Nat)
+    (c : CallInfo) (h : c ∈ callsK o n (.cons ch i ks res rest)) :
+    (c.idx = n ∧ c.result = res ∧ c.outer = o) ∨
+    (n + 1 ≤ c.idx ∧ c.idx < n + 1 + ks.size ∧ c ∈ callsK (some n) (n + 1) ks) ∨
+    (n + 1 + ks.size ≤ c.idx ∧ c ∈ callsK o (n + 1 + ks.size) rest) := by
+  simp only [callsK, List.mem_cons, List.mem_append] at h
+  rcases h with h | h | h
+  · subst h; exact Or.inl ⟨rfl, rfl, rfl⟩
+  · exact Or.inr (Or.inl ⟨callsK_idx_ge _ _ _ _ h, callsK_idx_lt _ _ _ _ h, h⟩)
+  · exact Or.inr (Or.inr ⟨callsK_idx_ge _ _ _ _ h, h⟩)
+
+/-- rows started at the head of a chain segment that raised all show an error -/
+theorem rowsAt_seg_all_error (K : Kids) (n j x : Nat) (h : segResAt n K j = some x) :
+    ∀ r, r ∈ rowsAt n K j → r.error ≠ none := by
+  intro r hr
+  have hh := rowsAt_head_error K n j x h
+  cases hl : rowsAt n K j with
+  | nil => rw [hl] at hr; simp at hr
+  | cons a l =>
+    rw [hl] at hr hh
+    rcases List.mem_cons.mp hr with hr | hr
+    · subst hr; simp at hh; simp [hh]
+    · exact rowsAt_tail_error K n j r (by rw [hl]; exact hr)
+
+
+/-- what is shown of a failed sub-evaluation `b` of the call of row `r` -/
+def BranchShown (n : Nat) (K : Kids) (j : Nat) (r : Row) (b x : Nat) : Prop :=
+  ∃ hb br, r.frame < hb ∧ hb < n + K.size ∧ (⟨b, some x, br⟩ : Row) ∈ rowsAt n K hb ∧
+    (∀ r', r' ∈ rowsAt n K hb → r'.error ≠ none) ∧
+    (hb ∈ r.branches ∨ (r.branches = [] ∧ ∀ r', r' ∈ rowsAt n K hb → r' ∈ rowsAt n K j))
+
+theorem BranchShown_lift_ks (ch : Bool) (i : Info) (ks : Kids) (res : Option Nat) (rest : Kids) (n j j' : Nat)
+    (r : Row) (b x : Nat) (hrf : n + 1 ≤ r.frame)
+    (hsub : ∀ r', r' ∈ rowsAt (n + 1) ks j' → r' ∈ rowsAt n (.cons ch i ks res rest) j)
+    (h : BranchShown (n + 1) ks j' r b x) : BranchShown n (.cons ch i ks res rest) j r b x := by
+  obtain ⟨hb, br, h1, h2, h3, h4, h5⟩ := h
+  have heq : rowsAt n (.cons ch i ks res rest) hb = rowsAt (n + 1) ks hb := by
+    simp only [rowsAt, if_neg (by omega : ¬ hb = n), if_pos h2]
+  refine ⟨hb, br, h1, by simp only [Kids.size]; omega, by rw [heq]; exact h3, by rw [heq]; exact h4, ?_⟩
+  rcases h5 with h5 | ⟨h5, h6⟩
+  · exact Or.inl h5
+  · exact Or.inr ⟨h5, fun r' hr' => hsub r' (h6 r' (by rw [← heq]; exact hr'))⟩
+
+theorem BranchShown_lift_rest (ch : Bool) (i : Info) (ks : Kids) (res : Option Nat) (rest : Kids) (n j j' : Nat)
+    (r : Row) (b x : Nat) (hrf : n + 1 + ks.size ≤ r.frame)
+    (hsub : ∀ r', r' ∈ rowsAt (n + 1 + ks.size) rest j' → r' ∈ rowsAt n (.cons ch i ks res rest) j)
+    (h : BranchShown (n + 1 + ks.size) rest j' r b x) : BranchShown n (.cons ch i ks res rest) j r b x := by
+  obtain ⟨hb, br, h1, h2, h3, h4, h5⟩ := h
+  have heq : rowsAt n (.cons ch i ks res rest) hb = rowsAt (n + 1 + ks.size) rest hb := by
+    simp only [rowsAt, if_neg (by omega : ¬ hb = n), if_neg (by omega : ¬ hb < n + 1 + ks.size)]
+  refine ⟨hb, br, h1, by simp only [Kids.size]; omega, by rw [heq]; exact h3, by rw [heq]; exact h4, ?_⟩
+  rcases h5 with h5 | ⟨h5, h6⟩
+  · exact Or.inl h5
+  · exact Or.inr ⟨h5, fun r' hr' => hsub r' (h6 r' (by rw [← heq]; exact hr'))⟩
+
+/-- **every failed direct sub-evaluation `b` of a call that raised and has a row**: the rows started
+    at the head `hb` of `b`'s chain segment list `b` with its error; they all show errors; and `hb`
+    is a branch of the row, or the row has no branches and the rows go on with those of `hb` -/
+theorem row_branches_shown : ∀ (K : Kids) (o : Option Nat) (n j : Nat) (first : Bool), n ≤ j →
+    (∀ q, o = some q → q < n) → chainOk first K = true →
+    ∀ r, r ∈ rowsAt n K j → ∀ c, c ∈ callsK o n K → c.idx = r.frame → c.result ≠ none →
+    ∀ b, b ∈ callsK o n K → b.outer = some r.frame → ∀ x, b.result = some x →
+    BranchShown n K j r b.idx x := by
+  intro K
+  induction K with
+  | nil => intro o n j first _ _ _ r hr; simp [rowsAt] at hr
+  | cons ch i ks res rest ihks ihrest =>
+    intro o n j first hnj hq hck r hr c hc hci hcr b hb hbo x hbx
+    have hck' := hck
+    simp only [chainOk, Bool.and_eq_true, Bool.or_eq_true, Bool.not_eq_true'] at hck'
+    obtain ⟨⟨⟨_, hckk⟩, hres⟩, hckr⟩ := hck'
+    -- the two recursive situations
+    have in_ks : ∀ j', n + 1 ≤ j' → r ∈ rowsAt (n + 1) ks j' →
+        (∀ r', r' ∈ rowsAt (n + 1) ks j' → r' ∈ rowsAt n (.cons ch i ks res rest) j) →
+        BranchShown n (.cons ch i ks res rest) j r b.idx x := by
+      intro j' hj' hr' hsub
+      have hrange := rowsAt_frame_range ks (n + 1) j' r hr' hj'
+      have hc' : c ∈ callsK (some n) (n + 1) ks := by
+        rcases callsK_split ch i ks res rest o n c hc with h | h | h
+        · omega
+        · exact h.2.2
+        · omega
+      have hb' : b ∈ callsK (some n) (n + 1) ks := by
+        rcases callsK_split ch i ks res rest o n b hb with h | h | h
+        · rw [h.2.2] at hbo
+          have := hq r.frame hbo
+          omega
+        · exact h.2.2
+        · rcases callsK_outer rest _ _ b h.2 with h' | ⟨m, h1, _, h3⟩
+          · rw [h'] at hbo; have := hq r.frame hbo; omega
+          · rw [h3] at hbo; simp at hbo; omega
+      exact BranchShown_lift_ks ch i ks res rest n j j' r b.idx x (by omega) hsub
+        (ihks (some n) (n + 1) j' true hj' (fun q hq' => by simp at hq'; omega) hckk r hr' c hc' hci hcr b hb' hbo x hbx)
+    have in_rest : ∀ j', n + 1 + ks.size ≤ j' → r ∈ rowsAt (n + 1 + ks.size) rest j' →
+        (∀ r', r' ∈ rowsAt (n + 1 + ks.size) rest j' → r' ∈ rowsAt n (.cons ch i ks res rest) j) →
+        BranchShown n (.cons ch i ks res rest) j r b.idx x := by
+      intro j' hj' hr' hsub
+      have hrange := rowsAt_frame_range rest (n + 1 + ks.size) j' r hr' hj'
+      have hc' : c ∈ callsK o (n + 1 + ks.size) rest := by
+        rcases callsK_split ch i ks res rest o n c hc with h | h | h
+        · omega
+        · omega
+        · exact h.2
+      have hb' : b ∈ callsK o (n + 1 + ks.size) rest := by
+        rcases callsK_split ch i ks res rest o n b hb with h | h | h
+        · rw [h.2.2] at hbo
+          have := hq r.frame hbo
+          omega
+        · rcases callsK_outer ks _ _ b h.2.2 with h' | ⟨m, _, h2, h3⟩
+          · rw [h'] at hbo; simp at hbo; omega
+          · rw [h3] at hbo; simp at hbo; omega
+        · exact h.2
+      exact BranchShown_lift_rest ch i ks res rest n j j' r b.idx x (by omega) hsub
+        (ihrest o (n + 1 + ks.size) j' false hj' (fun q hq' => by have := hq q hq'; omega) hckr r hr' c hc' hci hcr b hb' hbo x hbx)
+    by_cases hjn : j = n
+    · subst hjn
+      cases hrs : rest.startsChained with
+      | true =>
+        have hrows : rowsAt j (.cons ch i ks res rest) j =
+            ⟨j, segRes rest, []⟩ :: (if (segRes rest).isNone then [] else rowsAt (j + 1 + ks.size) rest (j + 1 + ks.size)) := by
+          rw [rowsAt]; simp only [if_true, hrs]
+        rw [hrows] at hr
+        rcases List.mem_cons.mp hr with hr | hr
+        · -- a completed step: it returned normally
+          exfalso
+          subst hr
+          simp only at hci
+          rcases callsK_split ch i ks res rest o j c hc with h | h | h
+          · rcases hres with h' | h'
+            · rw [hrs] at h'; simp at h'
+            · rw [h.2.1] at hcr
+              cases res with
+              | none => exact hcr rfl
+              | some _ => simp at h'
+          · omega
+          · omega
+        · by_cases hsn : (segRes rest).isNone = true
+          · rw [if_pos hsn] at hr; simp at hr
+          · rw [if_neg hsn] at hr
+            apply in_rest (j + 1 + ks.size) (Nat.le_refl _) hr
+            intro r' hr'
+            rw [hrows, if_neg hsn]
+            exact List.mem_cons_of_mem _ hr'
+      | false =>
+        cases hlh : lastHead none (j + 1) ks with
+        | none =>
+          have hrows : rowsAt j (.cons ch i ks res rest) j = [⟨j, res, []⟩] := by
+            rw [rowsAt]; simp only [if_true, hrs, Bool.false_eq_true, if_false, hlh]
+          rw [hrows] at hr
+          simp only [List.mem_singleton] at hr
+          subst hr
+          -- no sub-evaluation at all
+          exfalso
+          have hk := lastHead_none_first _ _ hlh
+          subst hk
+          rcases callsK_split ch i .nil res rest o j b hb with h | h | h
+          · rw [h.2.2] at hbo; have := hq _ hbo; simp at this
+          · simp [callsK] at h
+          · rcases callsK_outer rest _ _ b h.2 with h' | ⟨m, h1, _, h3⟩
+            · rw [h'] at hbo; have := hq _ hbo; simp at this
+            · rw [h3] at hbo; simp [Kids.size] at hbo h1; omega
+        | some h =>
+          generalize hbr : (if failedHeads j none (j + 1) ks == [h] then [] else failedHeads j none (j + 1) ks) = br
+          have hrows : rowsAt j (.cons ch i ks res rest) j =
+              ⟨j, res, br⟩ :: (if br.contains h then [] else if (lastRes ks).isNone then [] else rowsAt (j + 1) ks h) := by
+            rw [rowsAt]
+            simp only [if_true, hrs, Bool.false_eq_true, if_false, hlh, hbr]
+          rw [hrows] at hr
+          have hlr := lastHead_range ks none (j + 1) h hlh
+          rcases List.mem_cons.mp hr with hr | hr
+          · -- the row of the call itself: `b` is one of its direct sub-evaluations
+            subst hr
+            simp only at hbo hci ⊢
+            have hb' : b ∈ callsK (some j) (j + 1) ks := by
+              rcases callsK_split ch i ks res rest o j b hb with h' | h' | h'
+              · rw [h'.2.2] at hbo; have := hq _ hbo; omega
+              · exact h'.2.2
+              · rcases callsK_outer rest _ _ b h'.2 with h'' | ⟨m, h1, _, h3⟩
+                · rw [h''] at hbo; have := hq _ hbo; omega
+                · rw [h3] at hbo; simp at hbo; omega
+            have htop := callsK_top ks (some j) (j + 1) b hb' hbo (fun q hq' => by simp at hq'; omega)
+            rw [hbx] at htop
+            obtain ⟨hb0, hmem, hcase⟩ := raised_kid_rows ks j none (j + 1) true b.idx x hckk htop
+            rcases hcase with ⟨_, hcont, _⟩ | ⟨hge, hseg, br', hrow⟩
+            · simp at hcont
+            · have hrg : hb0 < j + 1 + ks.size := by
+                rcases failedHeads_range ks j none (j + 1) hb0 hmem with h' | h'
+                · omega
+                · exact h'.2
+              have heq : rowsAt j (.cons ch i ks res rest) hb0 = rowsAt (j + 1) ks hb0 := by
+                simp only [rowsAt, if_neg (by omega : ¬ hb0 = j), if_pos hrg]
+              refine ⟨hb0, br', by simp only; omega, by simp only [Kids.size]; omega, by rw [heq]; exact hrow,
+                by rw [heq]; exact rowsAt_seg_all_error ks (j + 1) hb0 x hseg, ?_⟩
+              by_cases hfh : (failedHeads j none (j + 1) ks == [h]) = true
+              · -- the only failed segment is the last one: shown linearly below the row
+                right
+                have hbn : br = [] := by rw [← hbr, if_pos hfh]
+                have hfe : failedHeads j none (j + 1) ks = [h] := by simpa using hfh
+                rw [hfe] at hmem
+                simp only [List.mem_singleton] at hmem
+                subst hmem
+                refine ⟨hbn, ?_⟩
+                intro r' hr'
+                rw [heq] at hr'
+                have hlast : lastRes ks = some x := by rw [← segResAt_lastHead ks none (j + 1) hb0 hlh]; exact hseg
+                rw [hrows, hbn]
+                simp [hlast, hr']
+              · left
+                have hbn : br = failedHeads j none (j + 1) ks := by rw [← hbr, if_neg hfh]
+                simp only [hbn]
+                exact hmem
+          · by_cases hc1 : br.contains h = true
+            · rw [if_pos hc1] at hr; simp at hr
+            · rw [if_neg hc1] at hr
+              by_cases hc2 : (lastRes ks).isNone = true
+              · rw [if_pos hc2] at hr; simp at hr
+              · rw [if_neg hc2] at hr
+                apply in_ks h hlr.1 hr
+                intro r' hr'
+                rw [hrows, if_neg hc1, if_neg hc2]
+                exact List.mem_cons_of_mem _ hr'
+    · by_cases hjk : j < n + 1 + ks.size
+      · have heq : rowsAt n (.cons ch i ks res rest) j = rowsAt (n + 1) ks j := by
+          simp only [rowsAt, if_neg hjn, if_pos hjk]
+        rw [heq] at hr
+        exact in_ks j (by omega) hr (fun r' hr' => by rw [heq]; exact hr')
+      · have heq : rowsAt n (.cons ch i ks res rest) j = rowsAt (n + 1 + ks.size) rest j := by
+          simp only [rowsAt, if_neg hjn, if_neg hjk]
+        rw [heq] at hr
+        exact in_rest j (by omega) hr (fun r' hr' => by rw [heq]; exact hr')
+
+
+theorem shownRows_nested (fs : Array Frame) (fuel h d : Nat) (r : Row) (b : Nat) (hr : r ∈ unpack fs h) (hb : b ∈ r.branches) :
+    ∀ p, p ∈ shownRows fs fuel b (d + 1) → p ∈ shownRows fs (fuel + 1) h d := by
+  intro p hp
+  rw [shownRows_succ]
+  exact List.mem_flatMap.mpr ⟨r, hr, List.mem_cons_of_mem _ (List.mem_flatMap.mpr ⟨b, hb, hp⟩)⟩
+
+theorem shownRows_row (fs : Array Frame) (fuel h d : Nat) (r : Row) (hr : r ∈ unpack fs h) :
+    (d, r) ∈ shownRows fs (fuel + 1) h d := by
+  rw [shownRows_succ]
+  exact List.mem_flatMap.mpr ⟨r, hr, by simp⟩
+
+theorem pushDown_error_exists : ∀ (l : List Row) (r : Row) (x : Nat), r ∈ l → r.error = some x →
+    ∃ r', r' ∈ pushDown l ∧ r'.error = some x
+  | [], r, _, h, _ => by simp at h
+  | [a], r, x, h, he => by
+    simp only [List.mem_singleton] at h; subst h
+    exact ⟨r, by simp [pushDown], he⟩
+  | a :: b :: l, r, x, h, he => by
+    simp only [pushDown]
+    rcases List.mem_cons.mp h with h | h
+    · subst h
+      by_cases hab : (r.error == b.error) = true
+      · have hb : b.error = some x := by
+          have : r.error = b.error := by simpa using hab
+          rw [← this]; exact he
+        obtain ⟨r', hr', he'⟩ := pushDown_error_exists (b :: l) b x (by simp) hb
+        exact ⟨r', List.mem_cons_of_mem _ hr', he'⟩
+      · exact ⟨r, by rw [if_neg hab]; simp, he⟩
+    · obtain ⟨r', hr', he'⟩ := pushDown_error_exists (b :: l) r x h he
+      exact ⟨r', List.mem_cons_of_mem _ hr', he'⟩
+
+/-- **every call on the path of the root error has a row at a start that is rendered** -/
+theorem spine_row_context (t : Tree) (hwf : t.wf = true) :
+    ∀ (m fuel h d : Nat), startOK t.err 1 t.root h = true → (spineAt t.err 1 t.root h).length ≤ m →
+      Renderable (replay (events t)) fuel h → ∀ j, j ∈ spineAt t.err 1 t.root h →
+      ∃ fuel' h' d', startOK t.err 1 t.root h' = true ∧ Renderable (replay (events t)) (fuel' + 1) h' ∧
+        (∀ p, p ∈ shownRows (replay (events t)) (fuel' + 1) h' d' → p ∈ shownRows (replay (events t)) fuel h d) ∧
+        ∃ r, r ∈ rowsAt 1 t.root h' ∧ r.frame = j := by
+  intro m
+  induction m with
+  | zero =>
+    intro fuel h d _ hl _ j hj
+    have : spineAt t.err 1 t.root h = [] := List.eq_nil_of_length_eq_zero (by omega)
+    rw [this] at hj; simp at hj
+  | succ m ih =>
+    intro fuel h d hs hl hr j hj
+    cases fuel with
+    | zero => simp [Renderable] at hr
+    | succ fuel =>
+      have hwf' := hwf
+      simp only [Tree.wf, Bool.and_eq_true] at hwf'
+      have hop : onePath t.err t.root = true := by simpa [Tree.root, onePath] using hwf'.2
+      obtain ⟨A, B, k, h1, h2, h3, h4, h5, h6, h7, h8, hx, hy, h9⟩ := rowsAt_spine t.err t.root 1 h hop hs
+      rw [← List.take_append_drop k (spineAt t.err 1 t.root h)] at hj
+      rcases List.mem_append.mp hj with hj | hj
+      · have hjA : j ∈ A.map (·.frame) := h7.subset hj
+        obtain ⟨r, hrA, hrf⟩ := List.mem_map.mp hjA
+        exact ⟨fuel, h, d, hs, hr, fun p hp => hp, r, by rw [h1]; exact List.mem_append_left _ hrA, hrf⟩
+      · rcases h9 with h9 | ⟨hB, last, h', hl1, hl2, hn1, hn2⟩
+        · rw [h9, List.drop_length] at hj; simp at hj
+        · obtain ⟨_, hrows⟩ := hr
+          obtain ⟨r', hr', hfb⟩ := mem_map_fb_unpack t hwf h hs last
+            (by rw [h1]; exact List.mem_append_left _ (List.mem_of_getLast? hl1))
+          have hbr : r'.branches = last.branches := congrArg Prod.snd hfb
+          have hh' : h' ∈ r'.branches := by rw [hbr]; exact List.mem_of_getLast? hl2
+          obtain ⟨fuel', h'', d', hs'', hr'', hsub, hrow⟩ := ih fuel h' (d + 1) hn1
+            (by rw [hn2, List.length_drop]; omega) ((hrows r' hr').2 h' hh') j (by rw [hn2]; exact hj)
+          exact ⟨fuel', h'', d', hs'', hr'', fun p hp => shownRows_nested _ fuel h d r' h' hr' hh' p (hsub p hp), hrow⟩
+
 end Glom.C05
